@@ -14,6 +14,7 @@
 -/
 import Proofs.SumLaws
 import Model.Repr
+import Std.Data.String.ToInt
 
 namespace DV
 
@@ -340,11 +341,10 @@ mutual
 /-- Every opaque token (name / data repr) in the tree satisfies `ok`. -/
 def RT.AllTok (ok : String → Prop) : RT → Prop
   | .tok s => ok s
-  | .int _ => True
   | .call _ args => RT.AllTokList ok args
   | .kw _ v => v.AllTok ok
   | .list xs => RT.AllTokList ok xs
-  | .meth r _ => r.AllTok ok
+  | .callm _ args _ => RT.AllTokList ok args
 def RT.AllTokList (ok : String → Prop) : List RT → Prop
   | [] => True
   | x :: xs => x.AllTok ok ∧ RT.AllTokList ok xs
@@ -404,12 +404,23 @@ theorem Diagram.Canon.dagger {d : Diagram} (hd : d.WF) (hc : d.Canon) : d.dagger
   rw [hd.boxes]
   exact List.mem_map.mpr ⟨l, hl, rfl⟩
 
+/-- Python int literals: distinct ints print differently. -/
+theorem RT.int_inj {i j : Int} (h : RT.int i = RT.int j) : i = j := by
+  simp only [RT.int, RT.tok.injEq, Int.toString_eq_repr] at h
+  exact Int.repr_injective h
+
 theorem reprTTyEntry_inj {x y : Ob} (h : reprTTyEntry x = reprTTyEntry y) : x = y := by
   cases x with
   | mk n z => cases y with
     | mk n' z' =>
       unfold reprTTyEntry reprTOb at h
-      by_cases hz : z = 0 <;> by_cases hz' : z' = 0 <;> simp_all
+      by_cases hz : z = 0 <;> by_cases hz' : z' = 0
+      · simp_all
+      · simp [hz, hz'] at h
+      · simp [hz, hz'] at h
+      · simp only [hz, hz', if_false, RT.call.injEq, List.cons.injEq, RT.tok.injEq, RT.kw.injEq,
+          true_and, and_true] at h
+        rw [h.1, RT.int_inj h.2]
 
 theorem map_inj_on {α β} {f : α → β} {xs ys : List α}
     (hf : ∀ x ∈ xs, ∀ y ∈ ys, f x = f y → x = y) (h : xs.map f = ys.map f) : xs = ys := by
@@ -432,9 +443,9 @@ theorem reprTData_inj {d e : String} (h : reprTData d = reprTData e) : d = e := 
   by_cases hd : d = "-" <;> by_cases he : e = "-" <;> simp_all
 
 theorem reprTGen_inj {n n' : String} {d d' c c' : Ty} {x x' : String}
-    (h : reprTGen n d c x = reprTGen n' d' c' x') : n = n' ∧ d = d' ∧ c = c' ∧ x = x' := by
-  simp only [reprTGen, List.cons_append, List.nil_append, RT.call.injEq, List.cons.injEq,
-    RT.tok.injEq, true_and] at h
+    (h : reprTGenArgs n d c x = reprTGenArgs n' d' c' x') : n = n' ∧ d = d' ∧ c = c' ∧ x = x' := by
+  simp only [reprTGenArgs, List.cons_append, List.nil_append, List.cons.injEq,
+    RT.tok.injEq] at h
   exact ⟨h.1, reprTTy_inj h.2.1, reprTTy_inj h.2.2.1, reprTData_inj h.2.2.2⟩
 
 theorem take_drop_one_inj {l r l' r' : Ob}
@@ -463,14 +474,15 @@ theorem reprTBox_inj {a b : Box} (ha : a.Canon) (hb : b.Canon) (h : reprTBox a =
       -- gen / gen
       · by_cases h1 : ga = true <;> by_cases h2 : gb = true <;>
           simp only [h1, h2, if_true, if_false, Bool.false_eq_true] at h
-        · simp only [RT.meth.injEq, and_true] at h
+        · simp only [RT.callm.injEq, and_true, true_and] at h
           obtain ⟨e1, e2, e3, e4⟩ := reprTGen_inj h
           simp_all
-        · simp [reprTGen] at h
-        · simp [reprTGen] at h
-        · obtain ⟨e1, e2, e3, e4⟩ := reprTGen_inj h
+        · simp at h
+        · simp at h
+        · simp only [RT.call.injEq, true_and] at h
+          obtain ⟨e1, e2, e3, e4⟩ := reprTGen_inj h
           simp_all
-      all_goals try (split at h <;> simp [reprTGen] at h)
+      all_goals try (split at h <;> simp at h)
       all_goals try (simp only [RT.call.injEq, List.cons.injEq, and_true, true_and] at h)
       all_goals try (obtain ⟨e1, e2⟩ := take_drop_one_inj h.1 h.2; subst e1 e2; rfl)
       all_goals try (simp at h)
@@ -487,18 +499,18 @@ theorem reprTDiagram_inj {a b : Diagram} (ha : a.WF) (hb : b.WF) (hca : a.Canon)
     rw [Diagram.eqv_iff]
     refine ⟨reprTTy_inj h1, reprTTy_inj h2, ?_, ?_⟩
     · exact map_inj_on (fun x hx y hy => reprTBox_inj (hca x hx) (hcb y hy)) h3
-    · exact map_inj_on (fun x _ y _ e => by simpa using e) h4
+    · exact map_inj_on (fun x _ y _ e => RT.int_inj e) h4
   have box_ne_full : ∀ (x : Box) (d : Diagram), reprTBox x ≠ reprTFull d := by
     intro x d e
     unfold reprTBox reprTFull at e
     split at e
-    · split at e <;> simp [reprTGen] at e
+    · split at e <;> simp at e
     all_goals simp at e
   have box_ne_id : ∀ (x : Box) (t : Ty), reprTBox x ≠ .call "Id" [reprTTy t] := by
     intro x t e
     unfold reprTBox at e
     split at e
-    · split at e <;> simp [reprTGen] at e
+    · split at e <;> simp at e
     all_goals simp at e
   -- an identity: no boxes, so `cod = dom` and no offsets
   have id_fields : ∀ {d : Diagram}, d.WF → d.boxes = [] → d.cod = d.dom ∧ d.offsets = [] := by
